@@ -795,7 +795,8 @@ def c04_programs(rng, tier) -> List[Item]:
             elif d == "const":
                 dflt = P.value(rng.choice([7, [1], {"Z": 1}]))
             elif d == "template":
-                dflt = P.template(rng.choice(["{B}", "d{A}", "plain", ""]))
+                dflt_text = rng.choice(["{B}", "d{A}", "plain", "", "\\{A\\}", "p\\{q\\}r", "\\{\\}{B}"])
+                dflt = P.template(dflt_text)
             elif d == "factory":
                 fv = P.fnvalue(P.const_fn(f"fac{len(P.nodes)}", rng.choice([0, "f", None])))
                 dflt = P.funapp(fv, factory=True)
@@ -826,7 +827,8 @@ def c04_programs(rng, tier) -> List[Item]:
                     _shape(o, key, rng)
                 o = sort_json(o)
                 P.evaluate(opt, o)
-                meta["c04"].append({"op": len(P.ops) - 1, "key": key, "dflt": d, "domain": domspec, "opt": opt})
+                meta["c04"].append({"op": len(P.ops) - 1, "key": key, "dflt": d, "domain": domspec, "opt": opt,
+                                    "dflt_text": dflt_text if d == "template" else None})
         # one long-lived Option whose domain is itself an option with a default: first without, then with ALLOWED
         allowed_default = [None, False, 0, 1, "", "x", "a", "b"]
         dom_opt = P.option("ALLOWED", dflt=P.value(allowed_default))
@@ -971,8 +973,21 @@ def c04_oracle(prog, meta, impl, model):
                 if not (is_err(a) and k == c["key"]):
                     out.append(("an absent option without default did not fail with a missing-key error naming it", i,
                                 {"key": c["key"], "got": a.get("r")}))
-            elif c["dflt"] in ("const_falsy", "const") and is_ok(a) and c["domain"] is None:
-                pass
+            elif c["dflt"] == "template" and c.get("dflt_text") is not None and c["domain"] is None:
+                # a string default is a template: resolved against the same options exactly as a stored string is
+                try:
+                    want = ref_subst(c["dflt_text"], o, {}, set())
+                    if not isinstance(want, str):
+                        want = str(want)        # a Template evaluates to text
+                except KeyError:
+                    want = _SKIP
+                    if is_ok(a):
+                        out.append(("a templated default with a dangling reference yielded a value", i, {"default": c["dflt_text"], "got": a["r"]}))
+                except (ValueError, RecursionError, TypeError):
+                    want = _SKIP
+                if want is not _SKIP and (not is_ok(a) or dumps(a["r"][1]) != dumps(want)):
+                    out.append(("an absent option did not yield its (templated) default resolved against the options", i,
+                                {"key": c["key"], "default": c["dflt_text"], "expected": want, "got": a["r"], "options": o}))
     return out
 
 
